@@ -52,8 +52,10 @@ UnaryExp(b) ==
   ELSE IF D = 3 THEN [empty |-> FALSE, size |-> Size(b), area |-> SurfaceArea3(b), volume |-> Volume(b)]
   ELSE [empty |-> FALSE, size |-> Size(b)]
 UnaryCase(b) == [a |-> "Unary", cls |-> BoxClass(b), arg |-> Box(b), exp |-> UnaryExp(b)]
+\* center: the member function and (vector boxes) the free function center(box) must both give the centre
+CenterExp(b)  == IF D = 1 THEN [center2 |-> Center2(b)] ELSE [center2 |-> Center2(b), center2_free |-> Center2(b)]
 CenterCase(b) == [a |-> "Center", cls |-> IF \A i \in Ax(b) : Center2(b)[i] % 2 = 0 THEN "even" ELSE "odd",
-                  arg |-> Box(b), exp |-> [center2 |-> Center2(b)]]
+                  arg |-> Box(b), exp |-> CenterExp(b)]
 PointsExp(b) ==
   LET cont == [k \in DOMAIN PSeq |-> ContainsPt(b, PSeq[k])]
       ext  == [k \in DOMAIN PSeq |-> Box(ExtendPt(b, PSeq[k]))]
@@ -125,6 +127,21 @@ VecCases  == [k \in DOMAIN ScaleSeq |->
                     exp |-> [r |-> Box(Translate(b, v)), l |-> Box(Translate(b, v))]]]
 
 \* --------------------------------------------------------------------------
+\* group "big": size and centre of integer boxes whose coordinates lie beyond 2^24 (exactly representable in the
+\* integer element types and in double, not in float); all coordinates odd, so every centre is an integer
+\* --------------------------------------------------------------------------
+BigAxis == IF D = 1 THEN {-16777219, -16777217, 16777215, 16777217, 16777219, 16777221}
+           ELSE IF D = 2 THEN {-16777217, 16777215, 16777217, 16777221}
+           ELSE IF D = 3 THEN {-16777217, 16777217, 16777219}
+           ELSE {16777217, 16777221}
+BigSeq   == IF Group # "big" THEN <<>> ELSE SetToSeq(NEBoxes(D, BigAxis))
+BigCases == [k \in DOMAIN BigSeq |->
+               LET b == BigSeq[k] IN
+               [a |-> "MeasureBig", cls |-> "beyond-2^24", arg |-> Box(b),
+                exp |-> IF D = 1 THEN [size |-> Size(b), center2 |-> Center2(b)]
+                        ELSE [size |-> Size(b), center2 |-> Center2(b), center2_free |-> Center2(b)]]]
+
+\* --------------------------------------------------------------------------
 \* group "xfm": xfmBounds must contain the image of every lattice point of the box
 \* --------------------------------------------------------------------------
 \* all sign matrices (entries +-1), signed and scaled permutations, and a deterministic family with entries in -2..2
@@ -134,7 +151,12 @@ FamMap(k) == << <<Entry(k, 1), Entry(k, 2), Entry(k, 3)>>, <<Entry(k, 4), Entry(
 FamMaps == {FamMap(k) : k \in 1..(IF Level = 0 THEN 150 ELSE 400)}
 DiagMaps == {<< <<x, 0, 0>>, <<0, y, 0>>, <<0, 0, z>> >> : x \in {-2, 1}, y \in {-1, 2}, z \in {-2, -1, 2}}
               \cup {<< <<0, x, 0>>, <<0, 0, y>>, <<z, 0, 0>> >> : x \in {-2, 1}, y \in {-1, 2}, z \in {-2, 2}}
-LinMaps == IF Group # "xfm" THEN {} ELSE {l \in SignMaps \cup FamMaps \cup DiagMaps : Det3(<<l[1], l[2], l[3], <<0, 0, 0>> >>) # 0}
+\* degenerate maps (rank 0, 1, 2): containment of the images must hold all the same
+SingMaps == { << <<0, 0, 0>>, <<0, 0, 0>>, <<0, 0, 0>> >>, << <<1, -1, 2>>, <<2, -2, 4>>, <<-1, 1, -2>> >>,
+              << <<1, 0, 0>>, <<0, 1, 0>>, <<1, 1, 0>> >>, << <<1, 0, 0>>, <<0, 0, 0>>, <<0, 0, -2>> >>,
+              << <<-2, 1, 1>>, <<1, -2, 1>>, <<1, 1, -2>> >> }
+IsSingular(l) == Det3(<<l[1], l[2], l[3], <<0, 0, 0>> >>) = 0
+LinMaps == IF Group # "xfm" THEN {} ELSE {l \in SignMaps \cup FamMaps \cup DiagMaps : ~IsSingular(l)} \cup SingMaps
 XTrans  == {<<0, 0, 0>>, <<1, -2, 3>>}
 XBoxes  == IF Group # "xfm" THEN {} ELSE IF Level = 0 THEN {b \in NEB : SumTo(b.lo, 3) % 2 = 0}
            ELSE {b \in NEB : SumTo(b.lo, 3) % 2 = 0 /\ SumTo(b.hi, 3) % 2 = 1}
@@ -142,7 +164,7 @@ XfmSeq  == IF Group # "xfm" THEN <<>> ELSE SetToSeq(LinMaps \X XTrans \X XBoxes)
 XfmCase(l, t, b) ==
   LET m    == <<l[1], l[2], l[3], t>>
       imgs == SetToSeq(XfmImages(m, Pts(b, AX)))
-  IN [a |-> "Xfm", cls |-> BoxClass(b), arg |-> [m |-> m, lo |-> b.lo, hi |-> b.hi, imgs |-> imgs],
+  IN [a |-> "Xfm", cls |-> IF IsSingular(l) THEN "singular-map," \o BoxClass(b) ELSE BoxClass(b), arg |-> [m |-> m, lo |-> b.lo, hi |-> b.hi, imgs |-> imgs],
       exp |-> [contains |-> [k \in DOMAIN imgs |-> TRUE]],
       info |-> [hull |-> Box(Hull(XfmImages(m, CornerPts(b)), 3))]]
 XfmCases == [k \in DOMAIN XfmSeq |-> XfmCase(XfmSeq[k][1], XfmSeq[k][2], XfmSeq[k][3])]
@@ -154,7 +176,8 @@ XfmCases == [k \in DOMAIN XfmSeq |-> XfmCase(XfmSeq[k][1], XfmSeq[k][2], XfmSeq[
 RayBoxSeq == IF D = 2 THEN << [lo |-> <<0, 0>>, hi |-> <<2, 1>>], [lo |-> <<-1, 0>>, hi |-> <<1, 0>>],
                               [lo |-> <<1, 1>>, hi |-> <<1, 1>>], [lo |-> <<-2, -1>>, hi |-> <<3, 2>>] >>
              ELSE << [lo |-> <<0, 0, -1>>, hi |-> <<2, 1, 1>>], [lo |-> <<-1, 0, 0>>, hi |-> <<1, 0, 2>>],
-                     [lo |-> <<-2, -1, 0>>, hi |-> <<3, 2, 1>> ] >>
+                     [lo |-> <<-2, -1, 0>>, hi |-> <<3, 2, 1>> ],
+                     [lo |-> <<1, 0, -1>>, hi |-> <<1, 0, -1>>], [lo |-> <<0, 1, 0>>, hi |-> <<2, 1, 0>>] >>   \* a point and a segment
 RayBoxes == IF Group # "ray" THEN {} ELSE IF Mode = "0" THEN {RayBoxSeq[k] : k \in DOMAIN RayBoxSeq} ELSE {RayBoxSeq[atoi(Mode)]}
 RayOrgs  == IF Group # "ray" THEN {} ELSE Tuples(AX, D)
 DirVals  == IF Level = 0 /\ D = 3 THEN {{-2, 0, 1}, {-1, 0, 2}} ELSE {-2..2}
@@ -169,14 +192,28 @@ RayCases == [k \in DOMAIN RaySeq |-> [a |-> "Ray", cls |-> RayClass(RaySeq[k]), 
 \* laws of the ray part, on exactly the cases that are emitted
 RayLaws == \A c \in RaySet : LawRay(c, KProbe) /\ LawProbesDecided(c, KProbe)
 
+\* group "rayempty": rays against boxes without points - the default-constructed empty box and boxes inverted in one,
+\* in another and in every axis.  Every origin of the lattice, every direction (axis-parallel ones included), the default
+\* range and the explicit ranges: the returned interval must be empty (RayAcceptEmptyBox, decided by BoxRayValidate).
+InvertedIn(S) == [lo |-> [i \in 1..D |-> IF i \in S THEN 2 ELSE 0], hi |-> [i \in 1..D |-> IF i \in S THEN 0 ELSE 1]]
+RayEmptyBoxes == {EmptyBox(D), InvertedIn({1}), InvertedIn({D}), InvertedIn(1..D)}
+RayEmptySet == IF Group # "rayempty" THEN {}
+               ELSE UNION {{[org |-> o, dir |-> v, lo |-> b.lo, hi |-> b.hi, tlo2 |-> r[1], thi2 |-> r[2]] : r \in RayRanges(o)}
+                             : o \in Tuples(AX, D), v \in RayDirs, b \in RayEmptyBoxes}
+RayEmptySeq == SetToSeq(RayEmptySet)
+RayEmptyCases == [k \in DOMAIN RayEmptySeq |-> [a |-> "Ray", cls |-> RayClass(RayEmptySeq[k]), arg |-> RayEmptySeq[k]]]
+
 Cases == CASE Group = "box" -> BoxCases
            [] Group = "pair" -> PairCases
            [] Group = "pairinv" -> PairInvCases
            [] Group = "vec" -> VecCases
+           [] Group = "big" -> BigCases
+           [] Group = "rayempty" -> RayEmptyCases
            [] Group = "xfm" -> XfmCases
            [] Group = "ray" -> RayCases
 
 ASSUME Group = "ray" => RayLaws
+ASSUME Group = "rayempty" => \A c \in RayEmptySet : RayBoxIsEmpty(c) /\ LawRayEmptyBox(c, KProbe)
 ASSUME Group = "xfm" => \A k \in DOMAIN XfmSeq : LET x == XfmSeq[k] IN LawXfm(<<x[1][1], x[1][2], x[1][3], x[2]>>, x[3], AX)
 ASSUME ndJsonSerialize(OutFile, Cases)
 ASSUME PrintT(<<"C05-CASES", Group, D, Len(Cases)>>)
